@@ -16,8 +16,10 @@ Conc == { [fam |-> "C07", kind |-> "concurrent", start |-> s, g |-> g, k |-> Con
 Roc0s == << <<0, 0, 0, 0, 0, 0, 255, 255>>, <<0, 0, 0, 0, 0, 1, 0, 0>>, <<0, 0, 0, 0, 255, 255, 255, 255>>, <<0, 0, 0, 1, 0, 0, 0, 0>>, <<255, 255, 255, 255, 255, 255, 255, 254>> >>
 FarAlong == { [fam |-> "C07", kind |-> k, start |-> s, g |-> (IF k = "fixed" THEN 1 ELSE 4), k |-> (IF k = "fixed" THEN 4 ELSE 50), readers |-> (IF k = "fixed" THEN 0 ELSE 2),
                roc0 |-> Roc0s[i], class |-> "far_along_" \o k] : k \in {"fixed", "concurrent"}, s \in {65533, 100}, i \in 1..Len(Roc0s) }
+\* the sequencer as a component of a packetizer (frames of 1-4 packets and padding runs), started before, at and after the wrap
+ViaPacketizer == { [fam |-> "C07", kind |-> "packetizer", start |-> s, g |-> 1, k |-> 40, readers |-> 0, class |-> "via_packetizer"] : s \in 65440..65535 \cup {0, 1, 30000} }
 Many == { [fam |-> "C07", kind |-> "random_many", start |-> 0, g |-> 1, k |-> 500000, readers |-> 0, class |-> "random_many", n |-> i] : i \in 1..2 }
-Raw == SetToSeq(Fixed) \o SetToSeq(Rand) \o SetToSeq(Conc) \o SetToSeq(FarAlong) \o SetToSeq(Many)
+Raw == SetToSeq(Fixed) \o SetToSeq(Rand) \o SetToSeq(Conc) \o SetToSeq(FarAlong) \o SetToSeq(ViaPacketizer) \o SetToSeq(Many)
 CaseSeq == [i \in 1..Len(Raw) |-> Raw[i] @@ [case |-> i]]
 ASSUME WriteCases(CaseSeq) /\ PrintT(<<"CASES", Len(CaseSeq)>>)
 =============================================================================
